@@ -419,13 +419,25 @@ def build_api(spec):
     return data
 
 
+_LOAD_FILES = [0]
+
+
 def cfg_command(c, files_dir, idx):
     k = c["k"]
     if k == "load":
+        # three ways a configuration names its data: the absolute path of a file of this build; the bare name (found through
+        # the search path = the folder of the configuration, whatever the working directory holds under that name); the
+        # absolute path of a file that earlier builds of this process used with other content (a firmware rebuilt in place)
+        _LOAD_FILES[0] += 1
+        how = _LOAD_FILES[0] % 3
         p = os.path.join(files_dir, f"load{idx}.bin")
+        if how == 2:
+            rot = os.path.join(os.path.dirname(os.path.abspath(files_dir)), "rebuilt_in_place")
+            os.makedirs(rot, exist_ok=True)
+            p = os.path.join(rot, f"load{idx}.bin")  # idx is unique within one configuration
         with open(p, "wb") as f:
             f.write(c["data"])
-        d = {"address": c["address"], "file": p}
+        d = {"address": c["address"], "file": os.path.basename(p) if how == 1 else p}
         if c["mem_id"]:
             d["load_opt"] = c["mem_id"]
         return {"load": d}
